@@ -96,3 +96,87 @@ Theorem c04_restart_shorter_refuted :
     pr_map (page_map (wal_frames ps w) r 0) <> [].
 Proof. exact Witness.c04_restart_shorter_refuted_lemma. Qed.
 Print Assumptions c04_restart_shorter_refuted.
+
+(** * Whole histories with sessions (Db/Machine.v): Close / Open / kill at any point,
+      any application activity while litestream is closed
+
+    The machine of C01 (Properties/C01.v) with the steps [LsClose] (read
+    transaction released, syncState zeroed: acbcc3c), [LsKill] (the same at any
+    control state, without the final sync) and [LsOpen] (read transaction
+    re-acquired at the then-current mxFrame / mark 0, syncState stays zero);
+    while litestream is closed the environment steps are not constrained by any
+    mark.  [verify] has the fresh-session rule of commit 3b58009 (fourth flag)
+    and the truncated-WAL rule depends on syncedToWALEnd, which a new session
+    starts without.  Deleting the -wal file when the last connection closes is
+    not modelled.
+
+    [acked_sync_restores_sessions]: for /repo HEAD (all four flags true) every
+    acknowledgement of every session restores exactly the source, for every
+    history satisfying [steps_window], which excludes two interleavings, each
+    REFUTED below with its history:
+    - [catching_up]: a WAL restart while a re-opened session that took read mark
+      0 has copied a budgeted chunk (lastSyncedWALOffset > 0) but not yet
+      reached the end of the live generation ([reopen_catchup_restart_refuted]);
+    - [kill_ok]: the death of the process between a post-checkpoint copy that
+      ran over a WAL restarted under uncopied frames (the F16 interleaving) and
+      the boundary snapshot that follows it ([kill_after_lost_post_copy_refuted]).
+    F2 itself is the refutation for [freshrule = false]
+    ([reopen_restart_shorter_refuted]). *)
+From Coq Require Import Arith.
+From LS Require Db.Machine Db.MachineProofs.
+
+Theorem acked_sync_restores_sessions :
+  forall (data : Type) (zero : data) (lock : N)
+         (s0 : Machine.state data) (ls : list (Machine.label data)) (s : Machine.state data),
+  Machine.init_ok data zero lock s0 ->
+  Machine.run data lock true true true true s0 ls = Some s ->
+  Machine.steps_ok data lock true true true true s0 ls ->
+  Machine.steps_window data lock true true true true s0 ls ->
+  forall n im b, In (n, im, b) (Machine.acks data s) ->
+  Image.img_eq data (Image.restore data zero lock (firstn n (Machine.l0 data s))) im.
+Proof. exact MachineProofs.acked_sync_restores_head. Qed.
+Print Assumptions acked_sync_restores_sessions.
+
+(** F2, repaired by 3b58009: litestream closed; the application appends a frame,
+    checkpoints, restarts the WAL with a generation shorter than the cursor;
+    re-open; without the fresh-session rule the sync continues from the new
+    header and the next acknowledgement misses the frame *)
+Theorem reopen_restart_shorter_refuted :
+  exists (s0 : Machine.state N) ls s n im b,
+    Machine.init_ok N 0%N 1000%N s0 /\ Machine.run N 1000%N true true true false s0 ls = Some s /\
+    Machine.steps_ok N 1000%N true true true false s0 ls /\
+    In (n, im, b) (Machine.acks N s) /\
+    ~ Image.img_eq N (Image.restore N 0%N 1000%N (firstn n (Machine.l0 N s))) im.
+Proof. exact MachineProofs.reopen_restart_shorter_refuted. Qed.
+Print Assumptions reopen_restart_shorter_refuted.
+
+(** /repo HEAD without [steps_window], first excluded interleaving *)
+Theorem reopen_catchup_restart_refuted :
+  exists (s0 : Machine.state N) ls s n im b,
+    Machine.init_ok N 0%N 1000%N s0 /\ Machine.run N 1000%N true true true true s0 ls = Some s /\
+    Machine.steps_ok N 1000%N true true true true s0 ls /\
+    In (n, im, b) (Machine.acks N s) /\
+    ~ Image.img_eq N (Image.restore N 0%N 1000%N (firstn n (Machine.l0 N s))) im.
+Proof. exact MachineProofs.reopen_catchup_restart_refuted. Qed.
+Print Assumptions reopen_catchup_restart_refuted.
+
+(** /repo HEAD without [steps_window], second excluded interleaving *)
+Theorem kill_after_lost_post_copy_refuted :
+  exists (s0 : Machine.state N) ls s n im b,
+    Machine.init_ok N 0%N 1000%N s0 /\ Machine.run N 1000%N true true true true s0 ls = Some s /\
+    Machine.steps_ok N 1000%N true true true true s0 ls /\
+    In (n, im, b) (Machine.acks N s) /\
+    ~ Image.img_eq N (Image.restore N 0%N 1000%N (firstn n (Machine.l0 N s))) im.
+Proof. exact MachineProofs.kill_after_lost_post_copy_refuted. Qed.
+Print Assumptions kill_after_lost_post_copy_refuted.
+
+(** non-vacuity: the F2 history under /repo HEAD satisfies the hypotheses and
+    restores the source ([MachineProofs.sess_run]) *)
+Example sessions_example :
+  forall s, Machine.run N 1000%N true true true true MachineProofs.ex_init MachineProofs.sess_steps = Some s ->
+  forall n im b, In (n, im, b) (Machine.acks N s) ->
+  Image.img_eq N (Image.restore N 0%N 1000%N (firstn n (Machine.l0 N s))) im.
+Proof.
+  intros s E. eapply MachineProofs.acked_sync_restores_head;
+    [exact MachineProofs.ex_init_ok|exact E|exact MachineProofs.sess_steps_ok|exact MachineProofs.sess_steps_window].
+Qed.
